@@ -9,19 +9,22 @@ from pathlib import Path
 
 import lang_common as LC
 
-PATHS = ["a.py", "d/b.js", "d/c.py"]
-CONTENT_IDS = [2, 16, 31]
+PATHS = ["a.py", "d/b.js", "d/c.py", "d/e.ts"]      # b.js and e.ts take byte-identical contents: two languages, one checksum
+CONTENT_IDS = [2, 16, 31, 70, 71]      # 70 and 71: files larger than 64 KiB that differ only in their last bytes
 
 
 def content_text(path, cid):
     ext = path.rsplit(".", 1)[1]
+    pad = ""
+    if cid >= 70:
+        pad = ("# generated table, do not edit\n" if ext == "py" else "// generated table, do not edit\n") * 2300    # > 64 KiB
     if ext == "py":
-        return "def f():\n" + "    x = 1\n" * (cid - 1)
-    return "function f() {\n" + "  x = 1;\n" * (cid - 2) + "}\n"
+        return pad + "def f():\n" + "    x = 1\n" * (cid - 1)
+    return pad + "function f() {\n" + "  x = 1;\n" * (cid - 2) + "}\n"
 
 
 def lang_of(path):
-    return {"py": "Python", "js": "JavaScript"}[path.rsplit(".", 1)[1]]
+    return {"py": "Python", "js": "JavaScript", "ts": "TypeScript"}[path.rsplit(".", 1)[1]]
 
 
 def write_file(root, path, cid):
